@@ -155,27 +155,43 @@ fn unit_from_json(v: &Value) -> Option<UnitRun> {
 /// shared memory and coroutine stacks, and threads of one process serialise
 /// on the address-space lock. Results come back as one JSON line per unit
 /// and are put in index order, so nothing depends on timing.
-fn run_units(check: &dyn Check, cli: &Cli, keys: &Keys, n: u64, iters: usize) -> Vec<UnitRun> {
-    let workers = (cli.jobs as u64).min(n).max(1);
-    if workers <= 1 {
-        return (0..n).map(|i| run_one(check, cli, keys, i, iters, false)).collect();
-    }
+/// A worker process that died (signal / abort) while running a unit: the
+/// code under test corrupted memory or aborted. Reported as a violation.
+struct Crash {
+    unit: u64,
+    status: String,
+    stderr_tail: String,
+    skipped: u64,
+    /// The dead process ran units `k, k+of, k+2*of, ...` up to `unit`
+    /// (heap corruption may stem from an earlier unit of the same process).
+    k: u64,
+    of: u64,
+}
+
+fn worker_cmd(check_id: &str, cli: &Cli, n: u64, iters: usize, k: u64, of: u64) -> std::process::Command {
     let exe = std::env::current_exe().unwrap_or_else(|e| vcommon::harness_error(&format!("current_exe: {e}")));
+    let mut cmd = std::process::Command::new(exe);
+    cmd.args(["--property", check_id, "--tier", cli.tier.as_str(), "--seed", &format!("{:#x}", cli.seed)])
+        .args(["--jobs", "1", "--units", &n.to_string(), "--iters", &iters.to_string()])
+        .args(["--worker", &format!("{k}/{of}")])
+        .env_remove("SHUTTLE_RANDOM_SEED");
+    if cli.has_flag("fault-free") {
+        cmd.arg("--fault-free");
+    }
+    cmd
+}
+
+fn run_units(check: &dyn Check, cli: &Cli, keys: &Keys, n: u64, iters: usize) -> (Vec<UnitRun>, Vec<Crash>) {
+    let workers = (cli.jobs as u64).min(n).max(1);
+    let _ = keys; // the workers derive the same key pool from the batch seed
     let mut children = Vec::new();
     for k in 0..workers {
-        let mut cmd = std::process::Command::new(&exe);
-        cmd.args(["--property", check.id(), "--tier", cli.tier.as_str(), "--seed", &format!("{:#x}", cli.seed)])
-            .args(["--jobs", "1", "--units", &n.to_string(), "--iters", &iters.to_string()])
-            .args(["--worker", &format!("{k}/{workers}")])
-            .env_remove("SHUTTLE_RANDOM_SEED")
-            .stdout(std::process::Stdio::piped())
-            .stderr(std::process::Stdio::null());
-        if cli.has_flag("fault-free") {
-            cmd.arg("--fault-free");
-        }
+        let mut cmd = worker_cmd(check.id(), cli, n, iters, k, workers);
+        cmd.stdout(std::process::Stdio::piped()).stderr(std::process::Stdio::piped());
         children.push(cmd.spawn().unwrap_or_else(|e| vcommon::harness_error(&format!("cannot spawn worker: {e}"))));
     }
     let mut runs: Vec<UnitRun> = Vec::new();
+    let mut crashes: Vec<Crash> = Vec::new();
     let outputs: Vec<std::process::Output> = std::thread::scope(|s| {
         let hs: Vec<_> = children.into_iter().map(|c| s.spawn(move || c.wait_with_output())).collect();
         hs.into_iter()
@@ -185,22 +201,39 @@ fn run_units(check: &dyn Check, cli: &Cli, keys: &Keys, n: u64, iters: usize) ->
             })
             .collect()
     });
-    for o in outputs {
-        if !o.status.success() {
-            vcommon::harness_error(&format!("worker process failed ({:?})", o.status.code()));
-        }
+    let mut skipped_total = 0;
+    for (k, o) in outputs.into_iter().enumerate() {
+        let mut got: Vec<u64> = Vec::new();
         for line in String::from_utf8_lossy(&o.stdout).lines() {
             if let Some(j) = line.strip_prefix("UNITJSON ") {
-                let v: Value = serde_json::from_str(j).unwrap_or_else(|e| vcommon::harness_error(&format!("bad worker output: {e}")));
-                runs.push(unit_from_json(&v).unwrap_or_else(|| vcommon::harness_error("bad worker unit record")));
+                // a line cut short by a crash is not a unit
+                let Ok(v) = serde_json::from_str::<Value>(j) else { continue };
+                let Some(u) = unit_from_json(&v) else { continue };
+                got.push(u.index);
+                runs.push(u);
             }
+        }
+        if !o.status.success() {
+            let err = String::from_utf8_lossy(&o.stderr);
+            // An orderly exit 2 is a harness error of the worker, not a crash.
+            if o.status.code() == Some(2) {
+                let msg = err.lines().rev().find(|l| l.contains("HARNESS-ERROR")).unwrap_or("worker exited with 2");
+                vcommon::harness_error(&format!("worker {k}: {msg}"));
+            }
+            let mine: Vec<u64> = (k as u64..n).step_by(workers as usize).collect();
+            let unit = mine.iter().copied().find(|i| !got.contains(i)).unwrap_or(k as u64);
+            let skipped = mine.iter().filter(|i| **i > unit).count() as u64;
+            skipped_total += skipped + 1;
+            let tail: Vec<&str> = err.lines().filter(|l| !l.is_empty()).collect();
+            let tail = tail[tail.len().saturating_sub(4)..].join(" | ");
+            crashes.push(Crash { unit, status: format!("{}", o.status), stderr_tail: tail.chars().take(400).collect(), skipped, k: k as u64, of: workers });
         }
     }
     runs.sort_by_key(|r| r.index);
-    if runs.len() as u64 != n || runs.iter().enumerate().any(|(i, r)| r.index != i as u64) {
+    if runs.len() as u64 + skipped_total != n {
         vcommon::harness_error(&format!("workers returned {} of {} units", runs.len(), n));
     }
-    runs
+    (runs, crashes)
 }
 
 fn unit_hash(u: &UnitRun) -> u64 {
@@ -251,9 +284,27 @@ pub fn run(check: &dyn Check, cli: &Cli) -> i32 {
         return 0;
     }
 
+    // Failure-analysis process: confirm, minimise, write the replay file.
+    if let Some(spec) = cli.extra.get("analyse") {
+        let text = std::fs::read_to_string(spec).unwrap_or_else(|e| vcommon::harness_error(&format!("cannot read {spec}: {e}")));
+        let v: Value = serde_json::from_str(&text).unwrap_or_else(|e| vcommon::harness_error(&format!("bad analyse spec: {e}")));
+        let r = unit_from_json(&v["unit"]).unwrap_or_else(|| vcommon::harness_error("bad analyse spec (unit)"));
+        let idx = v["failure"].as_u64().unwrap_or(0) as usize;
+        let f = r.out.failures.get(idx).cloned().unwrap_or_else(|| vcommon::harness_error("bad analyse spec (failure)"));
+        let viol = process_failure(check, cli, &keys, &r, &f, iters);
+        println!(
+            "VIOLJSON {}",
+            json!({"class": viol.class, "sig": viol.sig, "detail": viol.detail, "seed": viol.seed, "replay": viol.replay.display().to_string()})
+        );
+        return 0;
+    }
+
     // Child mode of the determinism audit: print per-unit hashes only.
     if let Some(n) = extra_u64(cli, "hash-units") {
-        let runs = run_units(check, cli, &keys, n, iters);
+        let (runs, crashes) = run_units(check, cli, &keys, n, iters);
+        if !crashes.is_empty() {
+            vcommon::harness_error("a worker process crashed during the determinism audit");
+        }
         for r in &runs {
             println!("UNIT {} {:016x} execs={}", r.index, unit_hash(r), r.out.execs.len());
         }
@@ -261,7 +312,7 @@ pub fn run(check: &dyn Check, cli: &Cli) -> i32 {
     }
 
     let mut ev = Evidence::new(cli, "exploration");
-    let runs = run_units(check, cli, &keys, units, iters);
+    let (runs, crashes) = run_units(check, cli, &keys, units, iters);
 
     // ---- aggregate
     let mut sched_hashes = BTreeSet::new();
@@ -331,8 +382,16 @@ pub fn run(check: &dyn Check, cli: &Cli) -> i32 {
                 continue;
             }
             seen.insert(key);
-            violations.push(process_failure(check, cli, &keys, r, f, iters));
+            violations.push(analyse_in_child(check, cli, r, f, units, iters));
         }
+    }
+    // ---- worker processes killed by the code under test
+    for c in crashes.iter().take(2) {
+        total_fail += 1;
+        violations.push(process_crash(check, cli, c, units, iters));
+    }
+    if !crashes.is_empty() {
+        ev.set("crashed_units", json!(crashes.iter().map(|c| json!({"unit": c.unit, "status": c.status, "units_not_run_after_it": c.skipped})).collect::<Vec<_>>()));
     }
     ev.violations = total_fail;
     ev.set("failing_executions", json!(total_fail));
@@ -373,6 +432,90 @@ fn find_same<'a>(out: &'a UnitOutcome, class: &str) -> Option<&'a Failure> {
     out.failures.iter().find(|f| f.found.class == class)
 }
 
+/// Runs `process_failure` in a child process: it re-executes the code under
+/// test, which - being faulty - may corrupt memory; the parent must survive
+/// to report. A child that dies is reported as a crash of that unit.
+fn analyse_in_child(check: &dyn Check, cli: &Cli, r: &UnitRun, f: &Failure, units: u64, iters: usize) -> Violation {
+    let idx = r.out.failures.iter().position(|g| g.exec_index == f.exec_index && g.found.class == f.found.class).unwrap_or(0);
+    let spec = std::env::temp_dir().join(format!("afcsim-analyse-{}-{}-{}.json", std::process::id(), r.index, f.exec_index));
+    let doc = json!({"unit": unit_to_json(r), "failure": idx});
+    if let Err(e) = std::fs::write(&spec, doc.to_string()) {
+        vcommon::harness_error(&format!("cannot write {}: {e}", spec.display()));
+    }
+    let exe = std::env::current_exe().unwrap_or_else(|e| vcommon::harness_error(&format!("current_exe: {e}")));
+    let mut cmd = std::process::Command::new(exe);
+    cmd.args(["--property", check.id(), "--tier", cli.tier.as_str(), "--seed", &format!("{:#x}", cli.seed)])
+        .args(["--jobs", "1", "--iters", &iters.to_string(), "--analyse"])
+        .arg(&spec)
+        .env_remove("SHUTTLE_RANDOM_SEED");
+    for fl in ["fault-free", "no-minimise"] {
+        if cli.has_flag(fl) {
+            cmd.arg(format!("--{fl}"));
+        }
+    }
+    let out = cmd.output().unwrap_or_else(|e| vcommon::harness_error(&format!("cannot spawn analysis process: {e}")));
+    let _ = std::fs::remove_file(&spec);
+    let text = String::from_utf8_lossy(&out.stdout);
+    if out.status.success() {
+        if let Some(j) = text.lines().find_map(|l| l.strip_prefix("VIOLJSON ")) {
+            if let Ok(v) = serde_json::from_str::<Value>(j) {
+                return Violation {
+                    property: check.id().to_string(),
+                    class: v["class"].as_str().unwrap_or("").to_string(),
+                    sig: v["sig"].as_str().unwrap_or("").to_string(),
+                    detail: v["detail"].as_str().unwrap_or("").to_string(),
+                    seed: v["seed"].as_u64().unwrap_or(r.seed),
+                    replay: PathBuf::from(v["replay"].as_str().unwrap_or("")),
+                };
+            }
+        }
+        vcommon::harness_error("analysis process produced no result");
+    }
+    if out.status.code() == Some(2) {
+        let err = String::from_utf8_lossy(&out.stderr);
+        let msg = err.lines().rev().find(|l| l.contains("HARNESS-ERROR")).unwrap_or("analysis process exited with 2");
+        vcommon::harness_error(msg);
+    }
+    // The analysis process died (the faulty code corrupted memory while it
+    // was re-executed). Report what the search process itself observed,
+    // with its schedule, unminimised and unconfirmed.
+    let err = String::from_utf8_lossy(&out.stderr);
+    let tail: Vec<&str> = err.lines().filter(|l| !l.is_empty()).collect();
+    let tail: String = tail[tail.len().saturating_sub(2)..].join(" | ").chars().take(300).collect();
+    let class = class_of(check, f);
+    let tag = class.rsplit('.').next().unwrap_or("v").to_string();
+    let path = vcommon::replay_path(check.id(), r.seed, &tag);
+    let sched_path = path.with_extension("schedule");
+    let doc = json!({
+        "engine": "afcsim",
+        "property": check.id(),
+        "seed": format!("{:#x}", r.seed),
+        "batch_seed": format!("{:#x}", cli.seed),
+        "unit": r.index,
+        "config": {"scheduler": r.kind.name(), "executions_per_unit": iters, "max_steps": sim::MAX_STEPS, "tier": cli.tier.as_str(), "units": units},
+        "params": r.params,
+        "original_params": r.params,
+        "execution": f.exec_index,
+        "schedule": f.schedule,
+        "schedule_file": sched_path.display().to_string(),
+        "violation": {"class": class, "raw_class": f.found.class, "sig": f.found.sig, "detail": f.found.detail},
+        "event_log": f.log,
+        "note": format!("NOT minimised and NOT confirmed: the process that re-executed this unit for analysis died ({}; {}), i.e. the code under test also corrupts memory", out.status, tail),
+    });
+    let _ = std::fs::write(&sched_path, &f.schedule);
+    if let Err(e) = std::fs::write(&path, serde_json::to_string_pretty(&doc).expect("json")) {
+        vcommon::harness_error(&format!("cannot write {}: {e}", path.display()));
+    }
+    Violation {
+        property: check.id().to_string(),
+        class,
+        sig: f.found.sig.clone(),
+        detail: format!("{} [analysis process died: {}]", f.found.detail, out.status),
+        seed: r.seed,
+        replay: path,
+    }
+}
+
 /// Confirms, minimises, writes the replay file, re-runs it in a fresh
 /// process, and returns the violation to report.
 fn process_failure(check: &dyn Check, cli: &Cli, keys: &Keys, r: &UnitRun, f: &Failure, iters: usize) -> Violation {
@@ -382,12 +525,15 @@ fn process_failure(check: &dyn Check, cli: &Cli, keys: &Keys, r: &UnitRun, f: &F
     let again = sim::run_unit(r.kind, r.seed, iters, true, check.workload(&r.params, Arc::clone(keys)));
     let Some(f1) = again.failures.iter().find(|g| g.exec_index == f.exec_index).cloned() else {
         vcommon::harness_error(&format!(
-            "nondeterminism: unit {} (seed {:#x}) failed with {} in execution {} but not when re-run",
-            r.index, r.seed, raw_class, f.exec_index
+            "nondeterminism: unit {} (seed {:#x}) was reported as {} ({}) in execution {} but not when re-run; either the harness is nondeterministic or the code under test has undefined behaviour",
+            r.index, r.seed, raw_class, f.found.detail, f.exec_index
         ));
     };
     if f1.found.class != raw_class || f1.found.sig != f.found.sig || f1.schedule != f.schedule {
-        vcommon::harness_error(&format!("nondeterminism: unit {} execution {} failed differently when re-run", r.index, f.exec_index));
+        vcommon::harness_error(&format!(
+            "nondeterminism: unit {} execution {} was reported as {} ({}) but failed differently when re-run ({}); either the harness is nondeterministic or the code under test has undefined behaviour",
+            r.index, f.exec_index, raw_class, f.found.detail, f1.found.class
+        ));
     }
 
     // 2. minimise: shrink the workload, re-search with the same seed.
@@ -458,6 +604,78 @@ fn process_failure(check: &dyn Check, cli: &Cli, keys: &Keys, r: &UnitRun, f: &F
     }
 }
 
+/// A unit whose worker process died: the replay file names the unit; replaying
+/// re-runs exactly that unit in a child process and reports the violation if
+/// the child dies again.
+fn process_crash(check: &dyn Check, cli: &Cli, c: &Crash, units: u64, iters: usize) -> Violation {
+    let seed = vcommon::mix(cli.seed, c.unit);
+    let mut prng = Rng::derive(seed, "params");
+    let params = check.params(&mut prng, cli.tier, cli.has_flag("fault-free"));
+    let class = format!("{}.crash", check.id());
+    let sig = format!("crash:{}", c.status.replace(' ', "-"));
+    let detail = format!("the process running unit {} died ({}): {}", c.unit, c.status, c.stderr_tail);
+    let path = vcommon::replay_path(check.id(), seed, "crash");
+    let doc = json!({
+        "engine": "afcsim",
+        "property": check.id(),
+        "mode": "unit-crash",
+        "seed": format!("{:#x}", seed),
+        "batch_seed": format!("{:#x}", cli.seed),
+        "unit": c.unit,
+        "config": {
+            "scheduler": kind_for(c.unit, cli.tier).name(),
+            "executions_per_unit": iters,
+            "tier": cli.tier.as_str(),
+            "fault_free": cli.has_flag("fault-free"),
+            "units": units,
+            "worker": format!("{}/{}", c.k, c.of),
+        },
+        "params": params,
+        "violation": {"class": class, "raw_class": "crash", "sig": sig, "detail": detail},
+        "note": "not minimised: the process dies before it can report which execution was running; the replay re-runs, in a child process, the units the dead process had run (its slice k, k+of, ... up to this unit; same seeds, same schedulers)",
+    });
+    if let Err(e) = std::fs::write(&path, serde_json::to_string_pretty(&doc).expect("json")) {
+        vcommon::harness_error(&format!("cannot write {}: {e}", path.display()));
+    }
+    confirm_in_fresh_process(check.id(), &path);
+    Violation { property: check.id().to_string(), class, sig, detail, seed, replay: path }
+}
+
+fn replay_crash(check: &dyn Check, cli: &Cli, doc: &Value, file: &Path) -> i32 {
+    let unit = doc["unit"].as_u64().unwrap_or(0);
+    let iters = doc["config"]["executions_per_unit"].as_u64().unwrap_or(1) as usize;
+    let mut c2 = cli.clone();
+    c2.seed = doc["batch_seed"].as_str().and_then(vcommon::parse_u64).unwrap_or(cli.seed);
+    c2.tier = if doc["config"]["tier"] == "thorough" { Tier::Thorough } else { Tier::Quick };
+    if doc["config"]["fault_free"].as_bool().unwrap_or(false) && !c2.has_flag("fault-free") {
+        c2.flags.push("fault-free".into());
+    }
+    let (k, of) = doc["config"]["worker"]
+        .as_str()
+        .and_then(|w| w.split_once('/'))
+        .and_then(|(a, b)| Some((a.parse::<u64>().ok()?, b.parse::<u64>().ok()?)))
+        .unwrap_or((unit, unit + 1));
+    let out = worker_cmd(check.id(), &c2, unit + 1, iters, k, of)
+        .output()
+        .unwrap_or_else(|e| vcommon::harness_error(&format!("cannot spawn replay child: {e}")));
+    if out.status.success() {
+        println!("replay {}: the recorded crash no longer reproduces", file.display());
+        return 0;
+    }
+    if out.status.code() == Some(2) {
+        vcommon::harness_error("replay child reported a harness error");
+    }
+    let v = Violation {
+        property: check.id().to_string(),
+        class: doc["violation"]["class"].as_str().unwrap_or("crash").to_string(),
+        sig: doc["violation"]["sig"].as_str().unwrap_or("crash").to_string(),
+        detail: format!("the process running unit {unit} died again ({})", out.status),
+        seed: doc["seed"].as_str().and_then(vcommon::parse_u64).unwrap_or(0),
+        replay: file.to_path_buf(),
+    };
+    vcommon::report(check.id(), &[v])
+}
+
 pub fn confirm_in_fresh_process(property: &str, path: &Path) {
     let exe = std::env::current_exe().unwrap_or_else(|e| vcommon::harness_error(&format!("current_exe: {e}")));
     let out = std::process::Command::new(exe)
@@ -482,6 +700,9 @@ fn replay(check: &dyn Check, cli: &Cli, file: &PathBuf) -> i32 {
     let doc: Value = serde_json::from_str(&text).unwrap_or_else(|e| vcommon::harness_error(&format!("bad replay file: {e}")));
     if doc["engine"] != "afcsim" || doc["property"] != check.id() {
         vcommon::harness_error("replay file is for another engine/property");
+    }
+    if doc["mode"] == "unit-crash" {
+        return replay_crash(check, cli, &doc, file);
     }
     let batch_seed = doc["batch_seed"].as_str().and_then(vcommon::parse_u64).unwrap_or(cli.seed);
     let seed = doc["seed"].as_str().and_then(vcommon::parse_u64).unwrap_or(0);
